@@ -20,6 +20,7 @@ type NodeCfg struct {
 	Relay     string `json:"relay,omitempty"`     // "", "reenc" (re-encoded proofs, C05), "rebatch" (split blocks, C01)
 	FromRoots int    `json:"fromroots,omitempty"` // partial: bootstrap with NewMapPollardFromRoots at this height (0 = fresh)
 	NoUndo    bool   `json:"noundo,omitempty"`    // node rebuilds instead of undoing (keeps provenance clean)
+	Big       uint64 `json:"big,omitempty"`       // stump / light: the simulated forest is embedded at this slot offset of a huge accumulator (big.go)
 }
 
 type Step struct {
